@@ -220,6 +220,48 @@ def write_yaml(path, conf):
 
 
 # ----------------------------------------------------------------------------- output reader
+_SENT_F, _SENT_I = -7.123456789e-77, -1234567
+
+
+class _SentinelNumpy:
+    """numpy stand-in for the netCDF4 extension module while a file is read: read buffers start out holding a sentinel, so an
+    element that the netCDF library never sets (it pads too little when a slab exceeds a variable's stored extent along two
+    unlimited dimensions) is recognised deterministically instead of showing up as whatever the heap held."""
+
+    def __init__(self, real):
+        self._real = real
+
+    def __getattr__(self, k):
+        return getattr(self._real, k)
+
+    def empty(self, shape, dtype=float, **kw):
+        a = self._real.empty(shape, dtype, **kw)
+        if a.dtype.kind == "f":
+            a.fill(_SENT_F)
+        elif a.dtype.kind == "i" and a.dtype.itemsize >= 4:
+            a.fill(_SENT_I)
+        return a
+
+
+def whole_array(ncvar):
+    """`ncvar[:]` (one slab read, the way a user or xarray reads a variable) plus the boolean map of elements left unset."""
+    import netCDF4._netCDF4 as ext
+
+    real = ext.numpy
+    ext.numpy = _SentinelNumpy(real)
+    try:
+        a = np.asarray(ncvar[:])
+    finally:
+        ext.numpy = real
+    if a.dtype.kind == "f":
+        unset = a == _SENT_F
+    elif a.dtype.kind == "i" and a.dtype.itemsize >= 4:
+        unset = a == _SENT_I
+    else:
+        unset = np.zeros(a.shape, bool)
+    return a, unset
+
+
 def read_output(paths, layout="sparse"):
     """Read one or several ladim output files (in the given order) following the format
     documentation.  Returns dict(records=[dict(time=<abs sec>, file=<name>, vars={name: array})],
@@ -261,5 +303,17 @@ def read_output(paths, layout="sparse"):
                 for n in range(len(times)):
                     recs.append(dict(time=ref + float(times[n]), file=Path(p).name,
                                      vars={v: nc.variables[v][n, :] for v in ivars}))
+                # the same variables read as ONE array each must show the same content as the row-by-row reading
+                slab = []
+                for v in ivars:
+                    a, unset = whole_array(nc.variables[v])
+                    for n, j in zip(*np.nonzero(unset)):
+                        slab.append((v, int(n), int(j), "unset"))
+                    for n in range(min(len(times), a.shape[0])):
+                        row = np.asarray(recs[len(recs) - len(times) + n]["vars"][v])
+                        m = min(len(row), a.shape[1])
+                        for j in np.nonzero(~unset[n, :m] & ~((a[n, :m] == row[:m]) | ((a[n, :m] != a[n, :m]) & (row[:m] != row[:m]))))[0]:
+                            slab.append((v, int(n), int(j), "differs"))
+                finfo["slab_read_faults"] = slab
             files.append(finfo)
     return dict(records=recs, files=files)
